@@ -360,7 +360,7 @@ static void run_case(int k, const std::string & line)
          }
       }
       sgw.Reset(); rgw.Reset();
-      if (oracle_only) {o.str(""); o << "oracle-only";}
+      if ((oracle_only)&&(getenv("GW_VERBOSE") == NULL)) {o.str(""); o << "oracle-only";}
    }
    printf("%d %s\n", k, o.str().c_str());
    if (!orc.str().empty()) fputs(orc.str().c_str(), stdout);
